@@ -389,16 +389,28 @@ Proof. unfold wf_cfg. intros H. apply andb_true_iff in H as [H _]. apply Z.leb_l
 Lemma pv_le_next c b : wf_cfg c = true -> pv c b <= b + stp c.
 Proof. intros Hwf. pose proof (ival_pos c Hwf). unfold pv, stp. destruct (kd c); lia. Qed.
 
+Lemma align_by_le w c v : wf_cfg c = true -> align_by w c v <= v.
+Proof.
+  intros Hwf. unfold align_by. destruct (align_arg w); try lia.
+  - apply align_le, ival_pos; exact Hwf.
+  - destruct (1 <=? conf c) eqn:Hc; [|lia]. apply Z.leb_le in Hc. apply align_le; exact Hc.
+Qed.
+
+Lemma align_by_mono w c a b : wf_cfg c = true -> a <= b -> align_by w c a <= align_by w c b.
+Proof.
+  intros Hwf Hab. unfold align_by. destruct (align_arg w); try lia.
+  - apply align_mono; [apply ival_pos; exact Hwf|exact Hab].
+  - destruct (1 <=? conf c) eqn:Hc; [|lia]. apply Z.leb_le in Hc. apply align_mono; [exact Hc|exact Hab].
+Qed.
+
 Lemma app_align_le w c v : wf_cfg c = true -> app_align w c v <= v.
 Proof.
-  intros Hwf. unfold app_align. destruct (aligns_to_interval w); [|lia].
-  apply align_le, ival_pos; exact Hwf.
+  intros Hwf. unfold app_align. destruct (aligns_known w); [|lia]. apply align_by_le; exact Hwf.
 Qed.
 
 Lemma app_align_mono w c a b : wf_cfg c = true -> a <= b -> app_align w c a <= app_align w c b.
 Proof.
-  intros Hwf Hab. unfold app_align. destruct (aligns_to_interval w); [|lia].
-  apply align_mono; [apply ival_pos; exact Hwf|exact Hab].
+  intros Hwf Hab. unfold app_align. destruct (aligns_known w); [|lia]. apply align_by_mono; assumption.
 Qed.
 
 (* where a (re)start lands, for a wiring that reads the store and passes the result on *)
@@ -409,9 +421,13 @@ Definition rp (w : wiring) (c : cfg) (stored : option Z) : Z :=
 Lemma boot_ok w c stored :
   wiring_ok w = true -> latest c = false -> boot w c stored = BReady (Some (rp w c stored)).
 Proof.
-  unfold wiring_ok, boot, rp, get_start_block, to_chain. intros Hw Hl.
-  apply andb_true_iff in Hw as [Hr Hp]. rewrite Hr, Hp, Hl.
-  destruct (fresh c); [reflexivity|]. destruct (stored_or0 stored >? cstart c); reflexivity.
+  unfold wiring_ok, boot, rp, get_start_block, to_chain, passes_start_to_chain, align_safe, align_dead.
+  intros Hw Hl.
+  apply andb_true_iff in Hw as [Hw _]. apply andb_true_iff in Hw as [Hw Hs].
+  apply andb_true_iff in Hw as [Hr Hp]. rewrite Hr, Hl.
+  destruct (chain_arg w); try discriminate.
+  destruct (align_arg w); try discriminate; rewrite andb_false_r;
+    (destruct (fresh c); [reflexivity|]; destruct (stored_or0 stored >? cstart c); reflexivity).
 Qed.
 
 Lemma rp_ge_min w c stored : wf_cfg c = true -> app_align w c (cstart c) <= rp w c stored.
@@ -696,8 +712,9 @@ Proof.
   - (* Head *)
     destruct (s_pc s) eqn:Hp; try exact Hstay.
     + (* PBoot *)
+      destruct (aligns_head w && align_dead w c); [exists j; split; [reflexivity|exact I]|].
       cbn. rewrite Hl. eexists; split; [reflexivity|].
-      destruct (to_chain w (app_align w c h)) as [v|]; unfold SIL, core; cbn; auto.
+      destruct (to_chain w c (Some (app_align_head w c h))) as [v|]; unfold SIL, core; cbn; auto.
       split; [reflexivity|]. left. auto.
     + (* PPoll *)
       unfold SIL in HS. rewrite Hp in HS.
@@ -808,7 +825,8 @@ Qed.
 
 (* the wiring app.Run had for Bitcoin before the repair: nothing is read, nothing is passed *)
 Definition old_btc_wiring : wiring :=
-  {| reads_store := false; head_if_nil := false; aligns_to_interval := false; passes_start_to_chain := false |}.
+  {| reads_store := false; head_if_nil := false; align_arg := AlignNone; aligns_known := false; aligns_head := false;
+     chain_arg := ChainNil; steps_by_interval := true |}.
 
 Definition refute_cfg : cfg :=
   {| kd := Btc; ival := 5; conf := 1; nh := 1; cstart := 0; latest := false; fresh := false |}.
